@@ -193,6 +193,14 @@ class ChunkLoopTrans(LoopTrans):
         # The current implementation of ChunkLoopTrans does not allow
         # the step size to be non-constant, so it is ignored.
 
+        # The stop expression is copied into every chunk, where the loop
+        # variable no longer has the value it had on entry to the loop.
+        if Signature(node.variable.name) in bounds_ref.all_signatures:
+            raise TransformationError(
+                f"Cannot apply a ChunkLoopTrans to this loop because its "
+                f"boundary expressions depend on the loop variable "
+                f"'{node.variable.name}'.")
+
         # Add the access pattern to the node variable name
         bounds_ref.add_access(Signature(node.variable.name),
                               AccessType.READWRITE, self)
